@@ -206,7 +206,13 @@ func TestVerifC20Format(t *testing.T) {
 		switch {
 		case kind < 6:
 			class = "valid"
-			tmpl = pre + c20WordCase(r, "go", true) + thr + c20WordCase(r, "designer", true) + suf
+			ext := ""
+			if r.Intn(8) == 0 {
+				// file-extension suffixes: occurrences of 'go' AFTER 'designer' are suffix text
+				ext = []string{".go", ".pb.go", "_gen.go", ".GO", ".go.tpl"}[r.Intn(5)]
+				class = "valid-go-in-suffix"
+			}
+			tmpl = pre + c20WordCase(r, "go", true) + thr + c20WordCase(r, "designer", true) + suf + ext
 		case kind == 6:
 			class = "mixed-case"
 			if r.Intn(2) == 0 {
@@ -232,7 +238,19 @@ func TestVerifC20Format(t *testing.T) {
 		if class == "missing-designer" {
 			wantDe = 0
 		}
-		if len(gos) != wantGo || len(des) != wantDe {
+		if class == "valid-go-in-suffix" {
+			// exactly one 'designer', exactly one 'go' before it, the others after it
+			before := 0
+			for _, g := range gos {
+				if len(des) == 1 && g < des[0] {
+					before++
+				}
+			}
+			if len(des) != 1 || before != 1 || gos[0] > des[0] {
+				continue
+			}
+			class = "valid"
+		} else if len(gos) != wantGo || len(des) != wantDe {
 			continue // fillers accidentally formed another occurrence: not in this class
 		}
 		if !m.Only(idx) {
